@@ -893,6 +893,10 @@ OPS_BASIC = [('skip',), ('read', 0), ('read', 1), ('read', 3), ('read_rest', 2),
 OPS_COMMON = [op for op in OPS_BASIC if op[0] != 'iter']      # ops whose outputs are comparable across stacks
 TRANSPORTS = [None, 1, 2, 7, 64, [0, 3, 0, 0, 5, 1, 0, 100000], 1000]
 NAMES = ['a', 'field name', 'f;x=1', 'näme€', "it's", 'a*b', '', 'x' * 150]
+# values that need quoted-pair escapes: 1, 2, 3 escaped quotes, backslashes, ';' ',' '=' around them.  Never a trailing
+# backslash: `a="b\\"` is the separately recorded C11 finding quoted-value-trailing-backslash-swallows-params.
+QVALS = ['5" disk', 'a"b"c', 'a"b"c"d', '"', '""', '"' * 3, 'a\\b', '\\"x', 'a";b', 'a;"b', 'x\\y;z="1",', '";"=',
+         'C:\\dir\\f"1".txt', 'say "hi"; then \\"bye', 'p%22q;r']
 FILENAMES = [None, 'hd.txt', 'my file.txt', 'ünï.txt', 'a;b=c.txt', '']
 EXTS = [None, ('UTF-8', '', '⬅ Arrow.txt'), ('utf-8', 'en', '£ rates'), ('ISO-8859-1', '', '£ rates'),
         ('UTF-8', 'en-GB', '£ and € rates')]
@@ -993,6 +997,20 @@ def phase_meta(rec):
                     q = Part('other', b'{"a": 1}', ctype='application/json')
                     op = (('data',), ('text',), ('read_all',))[(idx // rec.nshards) % 3]
                     do_case(rec, make_case(b'ab', [p, q], [op, ('media',)], tag='M'))
+    # quoted-pair encoder style: '"' and '\' inside name only / filename only / both, followed by further parameters
+    combos = [(q, fn) for q in QVALS for fn in (None, 'hd.txt', 'a;b=c.txt')]
+    combos += [(nm, q) for nm in ('a', 'f;x=1') for q in QVALS]
+    combos += [(q, r) for q in QVALS for r in QVALS]
+    plain_styles = [x for x in STYLES if not x.get('token')]
+    for name, fn in combos:
+        for ext in (None, EXTS[1]):
+            idx += 1
+            if idx % rec.nshards != rec.shard:
+                continue
+            st = plain_styles[(idx // rec.nshards) % len(plain_styles)]
+            p = Part(name, b'v', filename=fn, ext=ext, ctype=(None, 'image/png')[idx % 2], style=st)
+            do_case(rec, make_case(b'ab', [p, Part('other', b'w', filename='t"1".bin')], [('data',), ('read_all',)], tag='MQ'))
+            rec.count('cls.quoted_pair')
     # get_media parts
     for i, (ct, content, _m) in enumerate(MEDIA_PARTS):
         if i % rec.nshards != rec.shard:
@@ -1250,7 +1268,14 @@ def rand_part(rng, b, j):
     fn = rng.choice(FILENAMES)
     if st.get('token') and fn == '':
         fn = None
-    return Part(rng.choice(NAMES), rand_content(rng, b), filename=fn,
+    name = rng.choice(NAMES)
+    if rng.random() < 0.25:
+        name = rng.choice(QVALS)
+    if rng.random() < 0.2 and not st.get('token'):
+        fn = rng.choice(QVALS)
+    if rng.random() < 0.05:
+        name = ''.join(rng.choice('a"\\;,= ') for _ in range(rng.randint(1, 8))).rstrip('\\') or '"'
+    return Part(name, rand_content(rng, b), filename=fn,
                 ext=rng.choice(EXTS) if rng.random() < 0.3 else None, ctype=rng.choice(CTYPES), style=st)
 
 
@@ -1360,7 +1385,10 @@ def run(rec):
                 'whole case')
     rec.assumptions = [
         'reference encoder vlib/models/c13_multipart.py is a correct reading of RFC 7578 / RFC 2046 5.1 / RFC 5987',
-        'part names/filenames never contain \'"\', backslash, CR or LF (real encoders disagree on how to escape them)',
+        'part names/filenames containing \'"\' or a backslash are written as quoted-strings with quoted-pair escapes (the RFC '
+        'quoted-string reading that falcon\'s parse_header implements); a percent-encoded quote (browser style) is not an escape '
+        'and is expected back verbatim; no CR/LF; a value never ENDS in a backslash (recorded C11 finding '
+        'quoted-value-trailing-backslash-swallows-params)',
         'encoded contents never contain CRLF "--" boundary (RFC 2046) and never start with "--" boundary',
         'header block size := bytes of the header lines joined by CRLF, excluding the terminating blank line',
         'small internal buffers are obtained by setting the documented module constants '
@@ -1420,7 +1448,7 @@ def floors(rec):
         ('cls.boundary_len.1', 100), ('cls.boundary_len.70', 100), ('cls.preamble', 100), ('cls.epilogue', 100),
         ('cls.no_final_crlf', 100), ('cls.parts.0', 8), ('cls.empty_content', 50), ('cls.content_delim_prefix', 500),
         ('cls.transport.1byte', 200), ('cls.transport.chunked', 500), ('cls.ics.small', 1000), ('cls.ics.default', 1000),
-        ('cls.body_spans_buffers.wsgi', 500), ('cls.body_spans_buffers.asgi', 200), ('cls.ext_filename', 100),
+        ('cls.body_spans_buffers.wsgi', 500), ('cls.body_spans_buffers.asgi', 200), ('cls.ext_filename', 100), ('cls.quoted_pair', 100),
         ('cls.edit.sub', 300), ('cls.edit.del', 50), ('cls.edit.ins', 300), ('cls.edit.trunc', 50),
         ('mon.op.read', 200), ('mon.op.read_rest', 100), ('mon.op.read_all', 500), ('mon.op.loop', 100),
         ('mon.op.until', 100), ('mon.op.until_n', 50), ('mon.op.mix', 50), ('mon.op.data', 300), ('mon.op.text', 50), ('mon.op.media', 20), ('mon.op.iter', 20),
